@@ -12,6 +12,7 @@ func TestMain(m *testing.M) { vkit.Main(m) }
 func TestProp_Mem(t *testing.T)    { PartMem.Run(t) }
 func TestProp_MemBig(t *testing.T) { PartMemBig.Run(t) }
 func TestProp_Diff(t *testing.T)   { PartDiff.Run(t) }
+func TestProp_Long(t *testing.T)   { PartLong.Run(t) }
 
 // TestEnum_MemSmall: every history of at most three steps (see SmallCases).
 func TestEnum_MemSmall(t *testing.T) { PartMemSmall.RunCases(t, SmallCases(), true) }
@@ -28,6 +29,7 @@ func TestReplay(t *testing.T) {
 	PartMemBig.Replay(t, times)
 	PartMemSmall.Replay(t, times)
 	PartDiff.Replay(t, times)
+	PartLong.Replay(t, times)
 	// schedule-dependent parts: re-run the program many times
 	if os.Getenv("VERIF_REPLAY") != "" {
 		PartOneShot.Replay(t, 2000)
